@@ -352,7 +352,7 @@ template <class K> struct World {
         std::vector<int> prev_permr; if (readopt) prev_permr.assign(s.perm_r, s.perm_r + n);
         Snapshot prevLU; if (readopt && cfg.capture) snap_lu(s, prevLU);
         uint64_t steps0 = ctx->steps;
-        rt_op_begin(ctx, (int)trace.size(), o.faults);
+        rt_op_begin(ctx, (int)trace.size() - 1, o.faults);
         int esc = guarded(ilu ? body_gsisx : body_gssvx, &a);
         rt_op_end(ctx);
         r.steps = ctx->steps - steps0; r.growth_reqs = ctx->growth_count; r.growth_log = ctx->growth_log;
@@ -511,7 +511,7 @@ template <class K> struct World {
         K::Create_Dense_Matrix(&a.B, n, a.nrhs, a.b, a.ld, SLU_DN, K::dtype, SLU_GE);
         StatInit(&a.stat); a.info = -777;
         uint64_t steps0 = ctx->steps;
-        rt_op_begin(ctx, (int)trace.size(), o.faults);
+        rt_op_begin(ctx, (int)trace.size() - 1, o.faults);
         int esc = guarded(body_gssv, &a);
         rt_op_end(ctx);
         r.steps = ctx->steps - steps0; r.growth_reqs = ctx->growth_count; r.growth_log = ctx->growth_log; r.escaped = esc;
@@ -581,7 +581,7 @@ template <class K> struct World {
         a.work = (o.lwork > 0) ? (void *)s.ws.work : nullptr; a.lwork = (int_t)o.lwork; a.info = -777; a.info2 = -777; r.lwork_used = o.lwork;
         StatInit(&a.stat);
         uint64_t steps0 = ctx->steps;
-        rt_op_begin(ctx, (int)trace.size(), o.faults);
+        rt_op_begin(ctx, (int)trace.size() - 1, o.faults);
         int esc = guarded(body_pipe_factor, &a);
         r.growth_reqs = ctx->growth_count; r.growth_log = ctx->growth_log;
         for (auto &g : r.growth_log) if (g.failed) r.growth_failed++;
@@ -656,7 +656,7 @@ template <class K> struct World {
         if (!s.haveA || s.storage != 0) { r.skipped = true; r.skip_reason = "needs a column-stored matrix"; return; }
         write_values(s, s.orig.re, s.orig.im);
         R rowcnd = 0, colcnd = 0, amax = 0; int info = -777; char eq[2] = {'N', 0};
-        rt_op_begin(ctx, (int)trace.size(), o.faults);
+        rt_op_begin(ctx, (int)trace.size() - 1, o.faults);
         uint64_t steps0 = ctx->steps;
         K::gsequ(&s.A, s.Rs, s.Cs, &rowcnd, &colcnd, &amax, &info);
         if (info == 0) K::laqgs(&s.A, s.Rs, s.Cs, rowcnd, colcnd, amax, eq);
@@ -689,7 +689,7 @@ template <class K> struct World {
             std::vector<S> v0(vals, vals + M.nnz()); std::vector<int_t> r0 = h.rowind1, c0 = h.colptr1;
             a.iopt = 1; a.n = M.n; a.nnz = M.nnz(); a.nrhs = 0; a.values = vals; a.rowind = h.rowind1.data(); a.colptr = h.colptr1.data(); a.b = nullptr; a.ldb = M.n;
             h.f = 0;
-            rt_op_begin(ctx, (int)trace.size(), o.faults);
+            rt_op_begin(ctx, (int)trace.size() - 1, o.faults);
             int esc = guarded(body_bridge, &a);
             rt_op_end(ctx);
             r.steps = ctx->steps - steps0; r.escaped = esc;
@@ -704,7 +704,7 @@ template <class K> struct World {
             int n = h.n; a.iopt = 2; a.n = n; a.nnz = 0; a.nrhs = o.nrhs; a.ldb = n + o.ldpad;
             S *b = (S *)malloc(sizeof(S) * (size_t)a.ldb * std::max(1, a.nrhs)); make_rhs(o, n, a.nrhs, a.ldb, b); a.b = b;
             std::vector<S> b_in(b, b + (size_t)a.ldb * std::max(1, a.nrhs));
-            rt_op_begin(ctx, (int)trace.size(), o.faults);
+            rt_op_begin(ctx, (int)trace.size() - 1, o.faults);
             int esc = guarded(body_bridge, &a);
             rt_op_end(ctx);
             r.steps = ctx->steps - steps0; r.escaped = esc;
@@ -719,7 +719,7 @@ template <class K> struct World {
         } else { // bfree
             if (!h.live) { r.skipped = true; r.skip_reason = "handle not live"; return; }
             a.iopt = 3; a.n = h.n;
-            rt_op_begin(ctx, (int)trace.size(), o.faults);
+            rt_op_begin(ctx, (int)trace.size() - 1, o.faults);
             int esc = guarded(body_bridge, &a);
             rt_op_end(ctx);
             r.steps = ctx->steps - steps0; r.escaped = esc;
